@@ -91,6 +91,12 @@ def stepOne (s : Stream) (op : String) (args : List String) : Option (Stream × 
         some (s.step (.deliverReset i),
           s!"{match r.2 with | .ok n => s!"sync={n}" | .error k => s!"err={k}"} r={rName r.1}{if r.1.panicked then " PANIC" else ""}")
       | none => none
+  | "rxresetforged", [v] =>
+    -- a RESET_STREAM frame NOT emitted by this stream's sender (non-conformant peer): any final size
+    v.toNat?.bind fun v =>
+      let r := s.rcv.rxReset v
+      some ({ s with rcv := r.1 },
+        s!"{match r.2 with | .ok n => s!"sync={n}" | .error k => s!"err={k}"} r={rName r.1}{if r.1.panicked then " PANIC" else ""}")
   | "ackreset", [] =>
     if s.resets.isEmpty then none else
     let s' := s.step .ackReset
